@@ -1,16 +1,21 @@
 // ovl generates the instrumentation overlay: for every non-test Go file of the
 // plenc module that imports sync or sync/atomic it writes a copy whose import
-// paths point at verif/vsync and verif/vatomic (same line, so positions in stack
-// traces still match the repository), and an overlay.json for `go build -overlay`.
+// paths point at verif/vsync and verif/vatomic, and every function of the library
+// packages (plenc, plenccodec, null) gets a verifsched.Yield("<name>") as its first
+// statement - a scheduling point at method granularity that is inert unless a
+// scenario switches it on. All edits stay on their original line, so positions in
+// stack traces still match the repository. Also writes overlay.json for `go build -overlay`.
 package main
 
 import (
 	"encoding/json"
 	"fmt"
+	"go/ast"
 	"go/parser"
 	"go/token"
 	"os"
 	"path/filepath"
+	"sort"
 	"strings"
 )
 
@@ -38,7 +43,7 @@ func main() {
 			return err
 		}
 		fset := token.NewFileSet()
-		f, err := parser.ParseFile(fset, path, src, parser.ImportsOnly)
+		f, err := parser.ParseFile(fset, path, src, parser.SkipObjectResolution)
 		if err != nil {
 			return fmt.Errorf("%s: %v", path, err)
 		}
@@ -63,9 +68,41 @@ func main() {
 			}
 			edits = append(edits, edit{fset.Position(im.Path.Pos()).Offset, fset.Position(im.Path.End()).Offset, text})
 		}
+		// method-granularity yield points in the library packages
+		switch f.Name.Name {
+		case "plenc", "plenccodec", "null":
+			ny := 0
+			for _, d := range f.Decls {
+				fd, ok := d.(*ast.FuncDecl)
+				if !ok || fd.Body == nil || fd.Name.Name == "init" {
+					continue
+				}
+				name := fd.Name.Name
+				if fd.Recv != nil && len(fd.Recv.List) == 1 {
+					t := fd.Recv.List[0].Type
+					if st, ok := t.(*ast.StarExpr); ok {
+						t = st.X
+					}
+					if ix, ok := t.(*ast.IndexExpr); ok {
+						t = ix.X
+					}
+					if id, ok := t.(*ast.Ident); ok {
+						name = id.Name + "." + name
+					}
+				}
+				at := fset.Position(fd.Body.Lbrace).Offset + 1
+				edits = append(edits, edit{at, at, fmt.Sprintf("verifsched.Yield(%q);", f.Name.Name+"."+name)})
+				ny++
+			}
+			if ny > 0 {
+				at := fset.Position(f.Name.End()).Offset
+				edits = append(edits, edit{at, at, `; import verifsched "verif/sched"`})
+			}
+		}
 		if len(edits) == 0 {
 			return nil
 		}
+		sort.Slice(edits, func(i, j int) bool { return edits[i].start < edits[j].start })
 		b := src
 		for i := len(edits) - 1; i >= 0; i-- {
 			e := edits[i]
